@@ -593,6 +593,9 @@ def cases(rng, tier):
             yield gen_xport(rng, B=8800, via=via, t=t, exact=quick and via != 'stream')
     for _ in range(30 if quick else 1300):
         yield gen_xport(rng)
+    # (6) TIME between an Interest's arrival and its reply (late / reordered replies after further frames); oracle only
+    for _ in range(60 if quick else 2500):
+        yield gen_xlate(rng)
 
 
 FORMS = ['bytes', 'ba', 'mv', 'rwmv']
@@ -936,9 +939,235 @@ def oracle_xport(case, impl):
                     return f'{fe} over {how}: reply to the bare {what} was not sent bare and unmodified'
     return None
 
+# ---- stream (6): TIME between the arrival of an Interest and its reply, through the receiving side of the real transports --------
+XL_JUNK = ['6400', '64046202aabb', 'f003010203', '6409fd032000fd03e80178', '0500']
+
+
+def gen_xlate(rng, via=None):
+    """one case of stream (6): a connection (real TcpFace / UnixFace frame reader, UdpFace, face.callback) on which 1..5
+    Interests arrive - each in an envelope with its own PIT token (some without a token / bare) - whose handlers keep the
+    reply function and what they were given, and answer LATER: after the dispatch has finished, after further frames (other
+    Interests, Data, junk, envelopes without Fragment) have arrived on the same connection, with loop turns / time in between,
+    in another order than the arrivals, some twice, some never.  Frames arrive one by one or glued back to back."""
+    via = via or rng.choice(['stream', 'stream', 'stream', 'unix', 'unix', 'udp', 'direct'])
+    n = rng.choice([1, 2, 2, 3, 3, 4, 5])
+    evs, arrived, ids = [], [], list(range(n))
+
+    def size():
+        r = rng.random()
+        return rng.randint(40, 400) if r < 0.6 else rng.randint(400, 8800) if r < 0.9 else rng.choice([8800, 9000, 12000, 20000])
+
+    def other():
+        r = rng.random()
+        if r < 0.35:
+            return {'e': 't', 'dt': rng.choice([0, 0, 0.001, 0.02, 0.25])}
+        if r < 0.65:
+            hs = None if rng.random() < 0.4 else hs_json(gen_ascending(rng)[0])
+            return {'e': 'd', 'size': size(), 'seed': rng.randrange(1 << 30), 'hdrs': hs, 'glue': rng.random() < 0.2}
+        return {'e': 'j', 'w': rng.choice(XL_JUNK), 'glue': rng.random() < 0.2}
+    nxt = 0
+    while nxt < n or any(i not in [e['id'] for e in evs if e['e'] == 'r'] for i in arrived) and rng.random() < 0.9:
+        r = rng.random()
+        if nxt < n and (r < 0.45 or not arrived):
+            r2 = rng.random()
+            if r2 < 0.12:
+                hs = None                                      # bare: its reply is bare
+            elif r2 < 0.22:
+                hs = gen_ascending(rng, token='no')[0]         # an envelope without a token: its reply is bare
+            elif r2 < 0.6:
+                hs = gen_ascending(rng, token='yes', subset=[0x62])[0]
+            elif r2 < 0.85:
+                hs = gen_ascending(rng, token='yes')[0]
+            else:
+                hs = gen_headers(rng, token='yes')[0]
+            evs.append({'e': 'i', 'id': nxt, 'size': size(), 'big': rng.choice(['body', 'body', 'name']),
+                        'seed': rng.randrange(1 << 30), 'signed': rng.random() < 0.4,
+                        'hdrs': None if hs is None else hs_json(hs), 'glue': rng.random() < 0.2})
+            arrived.append(nxt)
+            nxt += 1
+        elif arrived and r < 0.75:
+            # replies in any order; now and then a second reply to the same Interest
+            done = [e['id'] for e in evs if e['e'] == 'r']
+            todo = [i for i in arrived if i not in done]
+            i = rng.choice(todo) if todo and rng.random() < 0.9 else rng.choice(arrived)
+            evs.append({'e': 'r', 'id': i, 'size': rng.choice([40, 60, 300, rng.randint(40, 9000)])})
+        else:
+            evs.append(other())
+    case = {'k': 'xlate', 'via': via, 'evs': evs}
+    if via in ('stream', 'unix'):
+        case['head'] = rng.choice([[], [], [], [1], [1, 1, 1], [2, 1, 5], [rng.randint(1, 12)]])
+        case['mss'] = rng.choice([0, 0, 0, 1460, 4096, rng.randint(512, 9000)])
+        case['settle'] = rng.random() < 0.5
+    return case
+
+
+def xl_pk(e):
+    return {'id': e['id'], 't': 'int', 'size': e['size'], 'big': e['big'], 'seed': e['seed'], 'signed': e.get('signed')}
+
+
+def xl_reply(e, n):
+    """the reply bytes of reply event number n: distinct for every reply"""
+    import pktcommon as K
+    return _fit(lambda m: K.build_data(K.uri_to_comps('/x/h%d/r%d' % (e['id'], n)), {'content_type': 0}, _rb(n + 11, m), {'type': 0}),
+                e['size'])
+
+
+def _xlate_run(case, wrapped):
+    from ndn import encoding as enc, types
+    from apphelp import TransportRig
+    via = case['via']
+    with TransportRig('v2', via) as rig:
+        app, loop = rig.app, rig.loop
+        kept = {}              # id -> what the handler was given, KEPT (not copied): name, app_param, reply, context
+        first = {}
+
+        async def validator(name, sig, ctx):
+            return types.ValidResult.PASS
+
+        def look(i):
+            name, app_param, rep, ctx = kept[i]
+            tok = ctx.get('pit_token')
+            return [_dg(enc.Name.to_bytes(name)), None if app_param is None else _dg(app_param),
+                    None if tok is None else (bytes(tok).hex() or '-'),
+                    None if ctx.get('raw_packet') is None else _dg(ctx['raw_packet'])]
+        for e in case['evs']:
+            if e['e'] == 'i':
+                def handler(name, app_param, rep, context, i=e['id']):
+                    if i not in kept:
+                        kept[i] = (name, app_param, rep, context)
+                        first[i] = look(i)
+                app.attach_handler([bytes(c) for c in x_names(xl_pk(e))], handler, validator)
+        loop.settle()
+        rig.take_sent()
+        glued, replies, stray = [], [], []
+
+        def flush():
+            if glued:
+                w = b''.join(glued)
+                del glued[:]
+                try:
+                    rig.feed(w, case.get('head', ()), case.get('mss', 0), bool(case.get('settle')))
+                except Exception as ex:      # noqa
+                    stray.append('feed:' + c6.cls_name(type(ex).__name__))
+                loop.settle()
+                stray.extend(_dg(x) for x in rig.take_sent())      # nothing is to be written on arrival: no handler replies at once
+
+        def frame(w, glue):
+            glued.append(w)
+            if not (glue and via in ('stream', 'unix')):
+                flush()
+        for n, e in enumerate(case['evs']):
+            if e['e'] == 'i':
+                p = x_packet(xl_pk(e))
+                frame(wrap(hs_unjson(e['hdrs']), p) if (wrapped and e['hdrs'] is not None) else p, e.get('glue'))
+            elif e['e'] == 'd':
+                import pktcommon as K
+                p = _fit(lambda m: K.build_data(K.uri_to_comps('/x/u'), {'content_type': 0}, _rb(e['seed'], m), {'type': 0}), e['size'])
+                frame(wrap(hs_unjson(e['hdrs']), p) if (wrapped and e['hdrs'] is not None) else p, e.get('glue'))
+            elif e['e'] == 'j':
+                frame(bytes.fromhex(e['w']), e.get('glue'))
+            elif e['e'] == 't':
+                flush()
+                loop.advance(loop.time() + e['dt'])
+            else:
+                flush()
+                i = e['id']
+                if i not in kept:
+                    replies.append({'n': n, 'id': i, 'ret': 'no-handler-invocation', 'sent': []})
+                    continue
+                box = {}
+
+                def call(i=i, d=xl_reply(e, n)):
+                    box['r'] = kept[i][2](d)
+                try:
+                    loop.call_now(call)
+                    ret = bool(box.get('r'))
+                except Exception as ex:          # noqa
+                    ret = 'exc:' + c6.cls_name(type(ex).__name__)
+                loop.settle()
+                writes = rig.take_sent()
+                if via in ('stream', 'unix') and writes:
+                    writes = [b''.join(writes)]
+                replies.append({'n': n, 'id': i, 'ret': ret, 'sent': [_sent_obs(x) for x in writes]})
+        flush()
+        return {'first': {str(i): v for i, v in first.items()}, 'late': {str(i): look(i) for i in kept}, 'replies': replies,
+                'stray': stray, 'bg': [c6.cls_name(x[0]) for x in loop.errors], 'alive': bool(rig.face.running)}
+
+
+def run_xlate(case):
+    return {'xl': True, 'bare': _xlate_run(case, False), 'wrapped': _xlate_run(case, True)}
+
+
+def oracle_xlate(case, impl):
+    via = case['via']
+    how = {'stream': 'a TcpFace (StreamFace.run)', 'unix': 'a UnixFace (StreamFace.run)', 'udp': 'a UdpFace (datagram_received)',
+           'direct': 'face.callback'}[via]
+    b, w = impl['bare'], impl['wrapped']
+    ints = {e['id']: e for e in case['evs'] if e['e'] == 'i'}
+    if b['bg'] or b['stray'] or sorted(b['first']) != sorted(str(i) for i in ints):
+        return None                  # reception of the bare packets failing is not a transparency issue (C06)
+    if w['bg'] or w['stray']:
+        return f"appv2 over {how}: receiving the packets in envelopes failed / wrote to the face: {(w['bg'] + w['stray'])[0]}"
+    if sorted(w['first']) != sorted(b['first']):
+        return f"appv2 over {how}: handlers reached {sorted(b['first'])} by the bare Interests but {sorted(w['first'])} by the wrapped ones"
+    for i, e in sorted(ints.items()):
+        tok = None if e['hdrs'] is None else split_token(hs_unjson(e['hdrs']))[1]
+        want = None if tok is None else (tok.hex() or '-')
+        for when in ('first', 'late'):
+            bo, wo = b[when][str(i)], w[when][str(i)]
+            if bo[:2] != wo[:2]:
+                return (f"appv2 over {how}: name / parameters the handler of Interest {i} was given differ between bare and "
+                        f"wrapped arrival ({'at the invocation' if when == 'first' else 'read after later frames arrived'})")
+            if wo[2] != want or bo[2] is not None:
+                return (f"appv2 over {how}: handler context of Interest {i} carries token {wo[2]} instead of {want} "
+                        f"({'at the invocation' if when == 'first' else 'read after later frames arrived'})")
+        if b['late'][str(i)] != b['first'][str(i)]:
+            return None              # what the bare packet's handler keeps changes under it: not a matter of envelopes
+        if w['late'][str(i)][:2] != w['first'][str(i)][:2]:
+            return (f"appv2 over {how}: name / parameters given to the handler of wrapped Interest {i} changed after later frames "
+                    f"arrived while those of the bare one stayed")
+    for rb, rw in zip(b['replies'], w['replies']):
+        e = case['evs'][rw['n']]
+        i = e['id']
+        tok = None if ints[i]['hdrs'] is None else split_token(hs_unjson(ints[i]['hdrs']))[1]
+        data = xl_reply(e, rw['n'])
+        rv = _dg(data) if len(data) > 64 else data.hex()
+        what = f"late reply (event {rw['n']}) to Interest {i}"
+        for r, t in ((rb, None), (rw, tok)):
+            if r['ret'] is not True and not r['sent']:
+                continue             # the application refused to reply (deadline passed): nothing to carry
+            if len(r['sent']) != 1:
+                return f"appv2 over {how}: {what} wrote {len(r['sent'])} packets to the face"
+            if t is None:
+                if r['sent'][0]['d'] != _dg(data):
+                    return f'appv2 over {how}: {what} (no PIT token) was not sent bare and unmodified'
+            elif r['sent'][0]['env'] != [[0x62, t.hex()], [0x50, rv]]:
+                return f'appv2 over {how}: {what} does not carry exactly the identical token and the unmodified reply bytes'
+    return None
+
 
 def shrink(case):
     k = case['k']
+    if k == 'xlate':
+        evs = case['evs']
+        for j, e in enumerate(evs):
+            if e['e'] != 'i':
+                yield {**case, 'evs': evs[:j] + evs[j + 1:]}
+            else:
+                yield {**case, 'evs': [x for x in evs if not (x['e'] in ('i', 'r') and x['id'] == e['id'])]}
+        for key in ('head', 'mss', 'settle'):
+            if case.get(key):
+                yield {a: b for a, b in case.items() if a != key}
+        for j, e in enumerate(evs):
+            if e.get('glue'):
+                yield {**case, 'evs': evs[:j] + [{**e, 'glue': False}] + evs[j + 1:]}
+            if e['e'] == 'i' and e['hdrs'] and len(e['hdrs']) > 1:
+                for h in range(len(e['hdrs'])):
+                    if e['hdrs'][h][0] != 0x62:
+                        yield {**case, 'evs': evs[:j] + [{**e, 'hdrs': e['hdrs'][:h] + e['hdrs'][h + 1:]}] + evs[j + 1:]}
+            if e['e'] in ('i', 'd', 'r') and e['size'] > 60:
+                yield {**case, 'evs': evs[:j] + [{**e, 'size': 60}] + evs[j + 1:]}
+        return
     if k == 'lp':
         w = bytes.fromhex(case['w'])
         if case['spec'] is None:
@@ -1191,12 +1420,16 @@ def run_impl(case):
         return run_replies(case)
     if k == 'xport':
         return run_xport(case)
+    if k == 'xlate':
+        return run_xlate(case)
     return run_recv(case)
 
 
 # ---------------------------------------------------------------------------------------------- model
 def model_line(case, impl):
     k = case['k']
+    if k == 'xlate':
+        return None          # judged by the oracle only (no transports, no time in the model)
     if k == 'xport':
         return None          # judged by the oracle only (the model has no transports; sizes are covered by the proofs)
     if k == 'lp':
@@ -1388,6 +1621,8 @@ def oracle(case, impl):
         return None
     if k == 'xport':
         return oracle_xport(case, impl)
+    if k == 'xlate':
+        return oracle_xlate(case, impl)
     # recv ------------------------------------------------------------------------------------------
     fe = case['fe']
     pend = impl['pend']
@@ -1459,6 +1694,8 @@ def nontrivial(case, impl):
         return bool(case['pend'] or case['hand'])
     if k == 'xport':
         return any(r['done'] or r['invoked'] for r in impl['bare'])
+    if k == 'xlate':
+        return any(r['sent'] for r in impl['wrapped']['replies'])
     return True
 
 
@@ -1480,6 +1717,17 @@ def tags(case, impl):
         t.append('replies:%d' % sum(1 for e in case['evs'] if e[0] == 'r'))
         if any(e[0] == 'i' and e[1] is not None and int(e[2]) & 2 for e in case['evs']):
             t.append('replies:unknown-headers-before-token')
+    elif k == 'xlate':
+        t.append('xlate:' + case['via'])
+        seen = 0
+        for e in case['evs']:
+            if e['e'] in ('i', 'd', 'j'):
+                seen += 1
+            elif e['e'] == 'r':
+                later = seen - 1 - [x['id'] for x in case['evs'] if x['e'] == 'i'].index(e['id'])
+                t.append('xlate:reply-after-%s-further-frames' % ('no' if later <= 0 else '1' if later == 1 else 'several'))
+        for r in impl['wrapped']['replies']:
+            t.append('xlate-reply:' + ('refused' if not r['sent'] else 'in-envelope' if r['sent'][0]['env'] else 'bare'))
     elif k == 'xport':
         for pk, b, w in zip(case['pkts'], impl['bare'], impl['wrapped']):
             lim = [B for B in XBOUNDS if b['net'] <= B < w['wire']] if pk['t'] != 'nack' else [B for B in XBOUNDS if w['net'] <= B < w['wire']]
